@@ -59,8 +59,9 @@ Lemma analyse_inl : forall root hook cy p s s1 ot s2 tk,
   exists s', analyse root hook cy false p s = Alive s' /\
     (forall q, In q all_patched -> target_ok q s = true -> get (pkey q) s' = get (pkey q) s) /\
     aframe (misc_keys ++ outer_keys ++ begin_keys ++ inner_keys) sp s' /\
-    get k_showwarning s' = get k_showwarning (uncap tk sp) /\
-    get k_saved_showwarning s' = get k_saved_showwarning (uncap tk sp) /\
+    (mem_n hook (meta sp) = true -> callable e sp = true -> get k_saved_showwarning sp <> None ->
+       get k_showwarning s' = get k_showwarning (uncap tk sp) /\
+       get k_saved_showwarning s' = get k_saved_showwarning (uncap tk sp)) /\
     cwd s' = cwd sp /\ path s' = t_saved_path tk /\
     (mem_n hook (meta sp) = true -> meta s' = remove_first_n hook (meta sp)) /\
     (mem_n hook (meta sp) = true -> callable e sp = true ->
@@ -101,7 +102,7 @@ Proof.
   { intros k Hk. destruct (T4 k Hk) as [_ Inc]. exact Inc. }
   destruct (exit_phase e (mkToks oldc bt it (capture_started s1) (path s4)) ot
               (match oc with Exc => true | _ => false end) sp'
-              ND1 I1 ND6 I6 Sb) as (s4' & exc' & s' & XP & XO & Vo & Vi & Vb & AF & SW & SV & Cw & Pa & Me & Mo).
+              ND1 I1 ND6 I6 Sb) as (s4' & exc' & s' & XP & XO & Vo & Vi & Vb & AF & SW & Cw & Pa & Me & Mo).
   exists s'. split.
   { unfold analyse, analyse_env. fold e. change (e_early e) with false. change (e_root e) with root.
     fold s0. rewrite PE. cbv iota.
@@ -121,7 +122,7 @@ Proof.
         assert (OK5 : target_ok q s5 = true) by (rewrite (TO5 q (in_all_inner q Hq)); exact OK).
         pose proof (IN6 q Hq OK5) as TI. rewrite (Vi _ _ TI).
         apply G5; [apply inner_not_outer|apply inner_not_misc|apply inner_not_begin]; exact Hk. }
-  split; [exact AF|]. split; [exact SW|]. split; [exact SV|]. split; [exact Cw|]. split; [exact Pa|]. split; [exact Me|exact Mo].
+  split; [exact AF|]. split; [exact SW|]. split; [exact Cw|]. split; [exact Pa|]. split; [exact Me|exact Mo].
 Qed.
 
 (* ------------------------------------------------------------------ host originals bound to one attribute only *)
@@ -253,7 +254,7 @@ Proof.
   - destruct (t_old_cython tk) as [[| | |]|]; inversion H; reflexivity.
   - inversion H; reflexivity.
   - inversion H; reflexivity.
-  - inversion H; subst. destruct (uncap_facts tk s) as [_ R]. unfold rest in R.
+  - destruct (run_fstep_uncapture_frame e tk s s' H) as [_ R]. unfold rest in R.
     exact (f_equal (fun x => fst (fst (fst x))) R).
   - pose proof (end_patch_frame _ _ _ H) as [_ R]. unfold rest in R.
     exact (f_equal (fun x => fst (fst (fst x))) R).
@@ -647,7 +648,7 @@ Proof.
   assert (N2 : novalue (e_real_exit e) s2).
   { eapply enter_parse_novalue_exit; eauto. eapply nve_patch_enter; eauto. }
   pose proof (body_not_died e p s2 HrE N2) as ND.
-  destruct (analyse_inl root hook cy p s s1 ot s2 tk PE EP ND) as (s' & A & AT & _ & _ & _ & _ & PA & ME & MD).
+  destruct (analyse_inl root hook cy p s s1 ot s2 tk PE EP ND) as (s' & A & AT & _ & _ & _ & PA & ME & MD).
   exists s'. split; [exact A|].
   assert (FK1 : forall n, In n fake_names -> mmem n (mods s1) = false) by (intros n Hn; rewrite D1; apply FK; exact Hn).
   destruct (enter_parse_rest _ _ _ _ EP FK1) as (P2 & M2 & S2 & SP).
@@ -695,7 +696,7 @@ Proof.
     assert (N2 : novalue (e_real_exit e) s2).
     { eapply enter_parse_novalue_exit; eauto. eapply nve_patch_enter; eauto. }
     pose proof (body_not_died e p s2 HrE N2) as ND.
-    destruct (analyse_inl root hook cy p s s1 ot s2 tk PE EP ND) as (s' & A & AT & _ & _ & _ & _ & PA & _).
+    destruct (analyse_inl root hook cy p s s1 ot s2 tk PE EP ND) as (s' & A & AT & _ & _ & _ & PA & _).
     exists s'. split; auto. split; auto.
     rewrite PA. rewrite enter_parse_unfold in EP.
     pose proof (pre_begin_facts e s1) as PB. cbv zeta in PB.
